@@ -62,6 +62,7 @@ def run(facts, rep, tier):
     errarm(F, rep)
     link(F, R, rep)
     imports(F, rep)
+    walkers(F, rep)
     castgroup(F, rep)
     derives(F, R, rep)
 
@@ -317,6 +318,41 @@ def imports(F, rep):
                             "`HashMap`/`HashSet` without the `use std::collections::…` line, and the generated file "
                             "does not build" % (suf.split("::")[-1], short(adt), name),
                             file=f.file, line=sw["ln"], fn=f.path))
+
+
+WALKER_EXEMPT = {
+    "scan_stmt:IrStmtKind::Assign.target": "assignment targets are places (variable, field, index); a dict/set "
+                                           "literal cannot occur in one that the checker accepts",
+    "scan_stmt:IrStmtKind::For.pattern": "loop patterns bind names; they contain no dict/set literal",
+    "scan_stmt_for_param_writes:IrStmtKind::For.pattern": "loop patterns bind names; they cannot write a parameter",
+}
+
+
+def walkers(F, rep):
+    """Auxiliary IR walkers that decide emission details (imports, `mut` on parameters, iter vs iter_mut)."""
+    from engines import walker_check
+    IRE, IRS = IR + "expr::IrExprKind", IR + "stmt::IrStmtKind"
+    TE, ST = IR + "expr::TypedExpr", IR + "stmt::IrStmt"
+    ir_uni = [a for a in F.adts if any(a.startswith(IR + m) for m in ("expr::", "stmt::", "decl::"))]
+    bear = bearing(F, ir_uni, [TE, ST])
+    imp = ("ImportTracker::scan_expr", "ImportTracker::scan_stmt", "ImportTracker::scan_function")
+    pw = ("IrEmitter<'a>>::scan_expr_for_param_writes", "IrEmitter<'a>>::scan_stmt_for_param_writes")
+    table = [
+        ("ImportTracker::scan_expr", IRE, (TE, ST), imp, False),
+        ("ImportTracker::scan_stmt", IRS, (TE, ST), imp, False),
+        ("for_body_needs_mut_iteration::stmt_mutates_var", IRS, (ST,), (), True),
+        ("IrEmitter<'a>>::scan_stmt_for_param_writes", IRS, (TE, ST), pw, False),
+        ("IrEmitter<'a>>::scan_expr_for_param_writes", IRE, (TE, ST), pw, False),
+    ]
+    n = 0
+    for suf, adt, kids, family, direct in table:
+        f = F.one_fn(suf)
+        if not rep.anchor("WALKER", suf, f):
+            continue
+        n += 1
+        rep.functions.add(f.path)
+        walker_check(F, rep, "WALKER", f, adt, bear, kids, exempt=WALKER_EXEMPT, family=family, direct_only=direct)
+    rep.floor("WALKER", "auxiliary IR walkers checked", n, 5)
 
 
 def castgroup(F, rep):
